@@ -63,6 +63,26 @@ RULES = {
                                 {"s": 0, "op": "downsize"}, E("x & 3", 20, 0), E("x", 20, 2)],
     "user-replacement-fresh-variable": [A("ULE(x, 11)"), B(), R("y", 3, 1), E("y", 20, 1), E("y", 20, 0), E("x + ZeroExt(1, y)", 40, 0),
                                         B(0), R("z", 2, 0, False), E("z", 20, 2), E("z", 20, 1), E("y ^ z", 20, 2)],
+    # a solver is ASKED about a variable it holds no constraint on (whatever it sets up to answer is its own), then branched; one
+    # side adds a constraint on that variable: the other side must not notice
+    "looked-at-variable-child-adds": [A("ULT(x, 3)"), E("y", 1), B(), A("y == 6", 1), E("y", 20, 0),
+                                      {"s": 0, "op": "max", "e": "y", "signed": False, "extra": []}, E("y", 20, 1), E("x", 20, 0)],
+    "looked-at-variable-parent-adds": [A("UGE(x, 8)"), {"s": 0, "op": "satisfiable", "extra": ["ULT(z, 2)"]},
+                                       {"s": 0, "op": "is_true", "e": "z == y", "extra": []}, {"s": 0, "op": "solution", "e": "y", "v": 3, "extra": []},
+                                       B(), B(1), A("ULT(z, 2)", 0), A("y == 6", 2), E("z", 20, 1), E("z", 20, 2), E("y", 20, 1), E("y", 20, 0),
+                                       {"s": 1, "op": "solution", "e": "z", "v": 5, "extra": []}, E("z", 20, 0)],
+}
+S = lambda e, v, s=0: {"s": s, "op": "solution", "e": e, "v": v, "extra": []}  # noqa: E731
+SAT = lambda s=0, ex=(): {"s": s, "op": "satisfiable", "extra": list(ex)}  # noqa: E731
+# thread hand-off (the calls still run strictly one after the other): one side of a branch learns more and is used by a WORKER
+# thread between two uses by the main thread; the other side is then asked with calls that keep its Z3 solver
+HANDOFF_RULES = {
+    "child-used-by-worker-in-between": [A("ULE(x, 11)"), SAT(), B(), A("x == 5", 1), dict(E("x", 1, 1), t=1), S("x", 4, 1), S("x", 9, 0),
+                                        SAT(0, ["x == 9"]), S("x", 5, 1), E("x", 20, 0), E("x", 20, 1)],
+    "parent-used-by-worker-in-between": [A("ULE(x, 11)"), SAT(), B(), A("UGE(x, 8)", 0), dict(E("x", 1, 0), t=1), S("x", 9, 0), S("x", 3, 1),
+                                         SAT(1, ["x == 1"]), E("x", 1, 1), E("x", 20, 1), E("x", 20, 0)],
+    "worker-asks-adds-asks": [A("ULE(x, 11)"), SAT(), B(), dict(SAT(0), t=1), dict(A("SLT(y, 0)", 0), t=1), dict(SAT(0), t=1), A("UGE(x, 12)", 0),
+                              SAT(0), SAT(1), S("x", 3, 1), S("y", 1, 1), E("x", 20, 1)],
 }
 
 
@@ -91,6 +111,11 @@ def jobs_for(ctx, classes, mult=1, extra_gen=None):
         for i in range(ctx.pick(14, 100) * mult):
             jobs.append({"cls": cls, "cfg": {"track": False, "reuse": i % 3 == 0}, "len": ctx.pick(6, 20),
                          "gen": dict({"shape": "branch-rebuild", "prefix_args": rp, "weights": WEIGHTS, "max_solvers": 5}, **extra_gen)})
+        # a solver is asked about a variable it holds NOTHING on (one value, a truth value, solution(), satisfiable() under an extra
+        # constraint), then branched; one side adds a constraint on that variable, every side is asked everything about it
+        for i in range(ctx.pick(12, 80) * mult):
+            jobs.append({"cls": cls, "cfg": {"track": cls != "SolverReplacement" and i % 6 == 0, "reuse": i % 3 == 0}, "len": ctx.pick(5, 20),
+                         "gen": dict({"shape": "look-then-branch", "weights": WEIGHTS, "max_solvers": 5}, **extra_gen)})
         if cls == "SolverReplacement":
             # random trees with user-level replacements in between (a variable nothing mentions yet: read as `v == c`; with
             # invalidate_cache=False: any variable, that solver is no longer judged)
@@ -117,10 +142,18 @@ def handoff_jobs(ctx, classes, mult=1):
                  {"s": 1, "op": "solution", "e": "x", "v": 3, "extra": [], "t": 1}, {"s": 1, "op": "satisfiable", "extra": ["x == 1"], "t": 1},
                  dict(E("x", 20, 1), t=1), dict(E("x", 20, 0), t=1)]
             jobs.append({"cls": cls, "cfg": {"track": False, "reuse": False}, "hist": h})
+        for name, h in HANDOFF_RULES.items():
+            jobs.append({"cls": cls, "cfg": {"track": False, "reuse": False}, "hist": h})
         lens = ctx.pick([12, 20], [30, 60])
         for i in range(ctx.pick(8, 60) * mult):
             jobs.append({"cls": cls, "cfg": {"track": False, "reuse": False}, "len": lens[i % len(lens)],
                          "gen": {"weights": WEIGHTS, "max_solvers": 4, "threads": 1 + i % 2}})
+        # directed opening: constraints + a question in the main thread, branch, ONE side learns more and is used by a worker
+        # thread in between (ask / ask, add, ask / add, ask), then by the main thread again with calls that keep its Z3 solver; the
+        # other side is asked everything; random tail from both threads
+        for i in range(ctx.pick(10, 60) * mult):
+            jobs.append({"cls": cls, "cfg": {"track": i % 4 == 3, "reuse": False}, "len": ctx.pick(4, 12),
+                         "gen": {"shape": "worker-between", "weights": WEIGHTS, "max_solvers": 4, "threads": 1}})
     return jobs
 
 
@@ -163,10 +196,12 @@ def run(ctx):
                        "grown from a solver branched while still EMPTY whose first constraints are `variable == constant`, a part opening with: "
                        "constraints on v, branch (nested), ONE side learns more about v (SolverReplacement: also add_replacement(u, c), mostly with "
                        "invalidate_cache=False), the OTHER sides rebuild (downsize / pickle / simplify / unrelated add) and are asked everything "
-                       "about v; classes Solver, "
+                       "about v, a part opening with: questions about a variable the solver holds NOTHING on, branch, one side adds a constraint on "
+                       "it, all sides asked; classes Solver, "
                        "SolverCacheless, SolverStrings (with model correspondence incl. the sharing graph of Z3 objects) and SolverComposite, SolverHybrid, "
                        "SolverReplacement (oracle); a wrong answer counts as an isolation failure iff the solver answers correctly when run alone along its "
-                       "lineage; a further stream makes the calls of such trees from two or three threads, strictly one after the other (oracle only); "
+                       "lineage; a further stream makes the calls of such trees from two or three threads, strictly one after the other, a part of them "
+                       "opening with: one side of a branch used by a worker thread BETWEEN two uses by the main thread (oracle only); "
                        "non-trivial = history with >= 3 calls")
     tie_ok = True
     try:
